@@ -132,7 +132,8 @@ def test_state(rep, st, box, rng, tier):
             fail('C02_CombinedWeights', 'combined weight at %s is %r, exact %r' % (x, wsum.get(x), e))
             break
     # integration: hats exactly, nodal functions = their combined weight
-    res = np.asarray(res, dtype=float)
+    res_returned = res                                  # the very object handed to the caller
+    res = np.array(res, dtype=float, copy=True)
     for j, h in enumerate(hats):
         e = float(hat_integral(h, a, b))
         if abs(res[1 + j] - e) > 1e-11 * max(1.0, abs(e)):
@@ -191,6 +192,20 @@ def test_state(rep, st, box, rng, tier):
         rep.exclude('%s: interpolation timeout' % case)
     except Exception as ex:
         fail('C02_NoException', 'interpolation raised %r' % ex, exception=repr(ex))
+    # level study on the same object: a later run (other levels) must not alter the result that was returned for this one
+    if lmax <= 3:
+        try:
+            with impl.quiet(), impl.watchdog(240):
+                l2 = (lmin, lmax - 1) if lmax > lmin else (lmin, lmax + 1)
+                combi.perform_operation(l2[0], l2[1])
+            later = np.asarray(res_returned, dtype=float)
+            if later.shape != res.shape or np.max(np.abs(later - res)) > 0.0:
+                fail('C02_IntegratesHats', 'the integrals returned for levels (%d,%d) were altered by a later run with levels %s on the same object' % (lmin, lmax, l2),
+                     returned=[float(x) for x in res[:6]], after_later_run=[float(x) for x in np.atleast_1d(later)[:6]])
+        except impl.Timeout:
+            rep.exclude('%s: level study timeout' % case)
+        except Exception as ex:
+            fail('C02_NoException', 'second run on the same object raised %r' % ex, exception=repr(ex))
     rep.count(1, key=json.dumps(case))
     rep.residual('implementation_tests_passed', not fails)
     rep.sample({'config': case, 'sparse_grid_points': len(sparse), 'hats_carried': len(hats), 'failed_clauses': fails}, limit=4)
